@@ -5,6 +5,7 @@ from ..index import AnalysisError, attr_chain, chain_prefixes, norm, own_nodes
 from ..query import (calls_in, call_name, is_value_yield, lines, mentions_all, falsy_edges, assigns,
                      assigns_none)
 from ..condeval import check_cond
+from .common import borrowed
 from .common import (TLSCONN, TLSREC, nodes_with_call, consumes_of, getmsg_nodes, dead_edge_labels,
                      effective_tests, must_pass, senderror_desc)
 
@@ -428,4 +429,5 @@ RULES = [
     ("C13.INVALIDATE", "quick", rule_invalidate),
     ("C13.CLIENT", "quick", rule_client),
     ("C13.CARRY", "quick", rule_carry),
+    ("C13.TICKET-ID", "quick", borrowed("c05", "rule_ticket_identity", "C05.TICKET-ID", "C13.TICKET-ID")),
 ]
